@@ -3,3 +3,6 @@
 ;@ghost rmu (Array Int Int)
 ;@ghost wl (Array Int Bool)
 ;@ghost rl (Array Int Int)
+(define-fun nolatch ((w (Array Int Bool)) (r (Array Int Int))) Bool
+  (and (= w ((as const (Array Int Bool)) false)) (= r ((as const (Array Int Int)) 0))))
+(define-fun rlok ((r (Array Int Int))) Bool (forall ((l Int)) (! (>= (select r l) 0) :pattern ((select r l)))))
